@@ -239,6 +239,21 @@ CLAIMED["C17"] = (
     "Partial: physical non-sharing of Python objects is checked (identity tests, diverging suffixes), not "
     "proved.  Two genuine defects repaired (fix: b431cc9, fix: b1b38e6).")
 
+CLAIMED["C16"] = (
+    "Theorems (Properties/C16.v): the model of a machine takes only its own declaration, providers, behaviour "
+    "and configuration (every theorem of the other properties is about one machine); the one process-wide object "
+    "the library shares, the signature cache, is proved transparent - every callable is bound with its own "
+    "adapter after any number and order of other bindings - whenever the cache key separates callables with "
+    "different adapters, and refuted for the pinned key (same qualified name and variable names, different "
+    "kinds: D7).  Tied to /repo metamorphically and against the model: each random machine A is run alone and "
+    "run again with unrelated activity between every two of its operations (another instance of the class with "
+    "other listeners incl. coroutine ones; another class with the same class and method names; a subclass adding "
+    "callbacks; an unrelated class); A's observations must be identical and equal the model of A alone.  Probe: "
+    "a subclass declaring a transition from an inherited state changes the base class (known finding D13); the "
+    "cache collision D7 is exhibited by C07's pairs.",
+    "Coq proof (signature cache transparent under key separation; one-machine models) + metamorphic/differential correspondence",
+    "DESIGN.md 5 C16", "Class-level State objects shared by subclasses are a known finding, not modelled.")
+
 PENDING_REASON = "check not built yet in this session (work in progress; see DESIGN.md 9 for the order of work)"
 
 ALL = [f"C{i:02d}" for i in range(1, 19)]
